@@ -24,6 +24,9 @@ Flights == << [o |-> "A1", d |-> "A2", dist |-> 500, seats |-> 100, svc |-> "J",
               [o |-> "A1", d |-> "A3", dist |-> 2000, seats |-> 200, svc |-> "F", acft |-> "738", days |-> {0, 3, 6, 9, 12}, min |-> 1439],
               [o |-> "A3", d |-> "A4", dist |-> 6000, seats |-> 300, svc |-> "J", acft |-> "77W", days |-> {1, 2}, min |-> 0],
               [o |-> "A4", d |-> "A1", dist |-> 7000, seats |-> 0, svc |-> "C", acft |-> "320", days |-> {13}, min |-> 720] >>    \* a freighter: no seats
+\* ValidityIsNotACondition: a flight row also carries the validity period of the schedule line it came from, in LOCAL
+\* calendar dates at its origin (flight 3 leaves at 23:59 UTC from east of Greenwich: local days 1..14; flight 4 at 00:00 UTC
+\* from west of it: local days 0..1).  It is a datum, not a condition: start and end dates select on the UTC departure.
 \* an instance is <<flight index, day>>; its departure minute since day 0
 Instances == {<<f, d>> : f \in 1..Len(Flights), d \in 0..13} \cap {x \in (1..Len(Flights)) \X (0..13) : x[2] \in Flights[x[1]].days}
 Dep(i) == i[2] * 1440 + Flights[i[1]].min
